@@ -33,8 +33,9 @@ PROP = dict(
                "(Lexer::byte_pos) are byte lengths of whole-character prefixes covering exactly the token's UTF-8 bytes. Tied to /repo on "
                "every run by provoking every diagnostic kind behind non-ASCII text and checking the ranges an editor receives.",
     level_note="The theorems cover token spans; that parser/checker diagnostics use these spans (and combine first/last token of a "
-               "construct) is checked by the correspondence only. Until the fixes D50 (unrecognized non-ASCII character: range ends "
-               "inside the character) and D51 (end-of-file diagnostics point one byte past the file) land, the check reports them.",
+               "construct) is checked by the correspondence only. The model follows /repo after the fixes of D12 (5388a80: byte offsets), "
+               "D50 (53a5e12: an unrecognized character is reported with its whole byte range) and D51 (39e6d4f: the Eof token is the "
+               "empty span at the end of the source).",
     technique="Lean 4 theorems (induction over the tokenizer's steps, a bound on every lexOne branch, UTF-8 length arithmetic) + differential correspondence against the real lexer and check_lsp",
     timeout=3000,
 )
